@@ -58,6 +58,13 @@ class C17(FsProp):
                 reqs.append(r)
         reqs.append({"comment": "s1", "source": "c", "private": "s1", "announce": "s2", "url-list": "s1", "httpseeds": "c"})
         reqs.append({g: "u" for g in FIELDS})
+        if tier == "thorough":      # every pair of fields, one set and one cleared
+            for a in FIELDS:
+                for b in FIELDS:
+                    if a < b:
+                        r = {g: "u" for g in FIELDS}
+                        r[a], r[b] = "s1", "c"
+                        reqs.append(r)
         out = []
         versions = (1, 2, 3) if tier == "thorough" else (1, 3)
         for v in versions:
@@ -72,17 +79,18 @@ class C17(FsProp):
                     # may fail, but must not hurt the file) and 251 bytes (exactly room for four more)
                     names = ("m.torrent", "fetched.tmp", "noext", "x.y.torrent", "m.torrent.tmp", "L" * 247 + ".torrent",
                              "K" * 243 + ".torrent")
-                    mname = names[k % 7]
-                    out.append({"version": v, "P": B, "tree": mk_tree("D2", (B + 1, 3 * B)), "req": r, "entry": e,
-                                "present": ["announce", "comment"] if k % 2 else [],
-                                "clauses": [c for c in cl if c != "C17.works" or len(mname) <= 251],
-                                # every third request: the metafile lives on another filesystem than the
-                                # system temp directory (a rename from there is impossible)
-                                "other_fs": k % 3 == 0,
-                                # the metafile need not be called *.torrent
-                                "meta_name": mname,
-                                # the metafile path is a symbolic link to a file kept elsewhere
-                                "meta_symlink": k % 4 == 1})
+                    for mname in (names if tier == "thorough" and k < 14 else (names[k % 7],)):
+                        out.append({"version": v, "P": B, "tree": mk_tree("D2", (B + 1, 3 * B)) if (k + v) % 3 else mk_tree("S1", (2 * B + 5,)),
+                                    "req": r, "entry": e,
+                                    "present": ["announce", "comment"] if k % 2 else [],
+                                    "clauses": [c for c in cl if c != "C17.works" or len(mname) <= 251],
+                                    # every third request: the metafile lives on another filesystem than the
+                                    # system temp directory (a rename from there is impossible)
+                                    "other_fs": k % 3 == 0,
+                                    # the metafile need not be called *.torrent
+                                    "meta_name": mname,
+                                    # the metafile path is a symbolic link to a file kept elsewhere
+                                    "meta_symlink": k % 4 == 1, "deep_torn": tier == "thorough"})
         return out
 
     def corruptions(self, recs):
@@ -149,6 +157,9 @@ class C18(FsProp):
     def cases(self, tier, rng):
         out = []
         trees = [("D2", (B + 1, 3 * B)), ("S1", (2 * B + 5,)), ("D3", (0, B, 5))]
+        if tier == "thorough":      # unusual names, deep nesting, names on which path helpers disagree, hidden / key-like names
+            from .e1 import SHAPES
+            trees += [(sh, tuple((5, B + 1, 2 * B, 0, 7)[k % 5] for k in range(len(SHAPES[sh])))) for sh in ("DU", "D5", "DX", "DKEY", "DP")]
         for v in (1, 2, 3):
             for sh, sizes in trees:
                 t = mk_tree(sh, sizes)
